@@ -537,6 +537,17 @@ def run_proof(sess, sp, proof):
     if proof.unwind is not None: cmd += ['--unwind', str(proof.unwind)]
     if proof.unwindset:
         us = proof.unwindset.split(',')
+        # a loop of a verified body that has neither a loop contract nor an entry in the unwindset (a loop the current code
+        # has and the spec does not know: new loop in a changed function, loop of an auto-inlined helper) gets a default bound,
+        # so that it is unwound and checked (unwinding assertion) instead of being unwound for ever
+        bounds = [int(u.rsplit(':', 1)[1]) for u in us if u.rsplit(':', 1)[-1].isdigit()]
+        dflt = (max(bounds) if bounds else 6) + 2
+        have = set(u.rsplit(':', 1)[0] for u in us)
+        for fn in a.functions:
+            cn = fn['function']; fs = sp.functions.get(cn)
+            for k in range(fn.get('loops', 0)):
+                contract = fs is not None and k in fs.loops and not proof.no_loop_contracts and cn not in a.auto_bodies
+                if not contract and '%s.%d' % (cn, k) not in have: us.append('%s.%d:%d' % (cn, k, dflt))
         if proof.enforce:   # dfcc renames the enforced function's body
             us += [u.replace(proof.enforce + '.', proof.enforce + '_wrapped_for_contract_checking.', 1) for u in us if u.startswith(proof.enforce + '.')]
         cmd += ['--unwindset', ','.join(us)]
@@ -550,6 +561,8 @@ def run_proof(sess, sp, proof):
     res.backend_used = used; res.secs = dt
     res.cmd = (' '.join(gi) + ' && ' if gi else '') + ' '.join(cmd)
     open(os.path.join(d, 'cbmc.json'), 'w').write(so)
+    if se != 'TIMEOUT' and 'external SAT solver has provided an unexpected response' in so:
+        se = 'TIMEOUT'      # the external solver died (memory limit) in one of the per-failure calls: same remedy as a time-out
     if se == 'TIMEOUT':
         # a run with failing obligations needs one solver call per failure and is much slower than a passing one:
         # before giving up, look for ONE failing obligation with --stop-on-fail on a canary-free build
